@@ -143,6 +143,39 @@ func c03Check(m *MClaims, c psatoken.IClaims, kp keyPair, validating bool, prep 
 			return fmt.Sprintf("after failed verification attempts the Evidence exposes different claims:\n  before: %s\n  after:  %s", g1, g)
 		}
 	}
+	// the caller keeps ITS claims object: after the signing Evidence has signed
+	// and verified, a claim changed through that object (a fresh challenge
+	// for the next token) is what the next signature covers
+	if old, gerr := c.GetNonce(); gerr == nil && len(old) > 0 {
+		fresh := make([]byte, len(old))
+		for i := range old {
+			fresh[i] = old[i] ^ 0xa5
+		}
+		if serr := c.SetNonce(fresh); serr == nil {
+			want2, werr := psatoken.ValidateAndEncodeClaimsToCBOR(c)
+			var tok2 []byte
+			var err2 error
+			if validating {
+				tok2, err2 = ev.ValidateAndSign(kp.Signer())
+			} else {
+				tok2, err2 = ev.Sign(kp.Signer())
+			}
+			if werr != nil || err2 != nil {
+				return fmt.Sprintf("after the nonce was refreshed through the caller's claims object the set no longer encodes / signs: %v / %v", werr, err2)
+			}
+			p2, ok2 := icose.Split(tok2)
+			if !ok2 || !bytes.Equal(p2.Payload, want2) {
+				return fmt.Sprintf("second token (after Verify on the signing Evidence and a nonce refreshed through the caller's claims object) does not carry the validated encoding of the claims as they are NOW:\n  payload  %x\n  encoding %x", p2.Payload, want2)
+			}
+			d2, derr := psatoken.DecodeAndValidateEvidenceFromCOSE(tok2)
+			if derr != nil || d2.Verify(kp.Pub) != nil || ev.Verify(kp.Pub) != nil {
+				return fmt.Sprintf("second token does not decode / verify (%v)", derr)
+			}
+			if n2, _ := d2.Claims.GetNonce(); !bytes.Equal(n2, fresh) {
+				return fmt.Sprintf("second token carries nonce %x, the claims object holds %x", n2, fresh)
+			}
+		}
+	}
 	// second use of the decoded Evidence: a correctly signed token whose
 	// payload is a claims map with one wrong-typed claim does not decode; the
 	// Evidence must not go on exposing the first token's claims while
